@@ -18,10 +18,14 @@ pub mod c14;
 pub mod ns_model;
 pub mod c15;
 pub mod c16;
+pub mod c17;
+pub mod c18;
+pub mod capi;
 pub mod c19;
+pub mod c20;
 pub mod common;
 
-pub const ALL: &[&str] = &["C01", "C02", "C03", "C04", "C05", "C06", "C07", "C08", "C09", "C10", "C11", "C12", "C13", "C14", "C15", "C16", "C19"];
+pub const ALL: &[&str] = &["C01", "C02", "C03", "C04", "C05", "C06", "C07", "C08", "C09", "C10", "C11", "C12", "C13", "C14", "C15", "C16", "C17", "C18", "C19", "C20"];
 
 pub fn run(prop: &str, ctx: &mut Ctx) -> bool {
     match prop {
@@ -41,7 +45,10 @@ pub fn run(prop: &str, ctx: &mut Ctx) -> bool {
         "C14" => c14::run(ctx),
         "C15" => c15::run(ctx),
         "C16" => c16::run(ctx),
+        "C17" => c17::run(ctx),
+        "C18" => c18::run(ctx),
         "C19" => c19::run(ctx),
+        "C20" => c20::run(ctx),
         _ => return false,
     }
     true
@@ -65,7 +72,10 @@ pub fn replay(prop: &str, kind: &str, case: &J, rec: &mut Rec) -> Verdict {
         "C14" => c14::replay(kind, case, rec),
         "C15" => c15::replay(kind, case, rec),
         "C16" => c16::replay(kind, case, rec),
+        "C17" => c17::replay(kind, case, rec),
+        "C18" => c18::replay(kind, case, rec),
         "C19" => c19::replay(kind, case, rec),
+        "C20" => c20::replay(kind, case, rec),
         _ => Verdict::fail("infra:unknown-property", prop),
     }
 }
@@ -76,6 +86,9 @@ pub fn probe(args: &[String]) -> i32 {
         Some("ladder") => c03::probe_ladder(&args[1..]),
         Some("filter-ladder") => c09::probe_ladder(&args[1..]),
         Some("c14-schedule") => c14::probe_schedule(&args[1..]),
+        Some("capi") => c17::child(&args[1..]),
+        Some("capi-one") => c17::child_one(&args[1..]),
+        Some("null-sweep") => c18::child_null_sweep(),
         _ => {
             eprintln!("unknown probe {args:?}");
             2
